@@ -99,7 +99,7 @@ func (l *Loader) Load(path string) (*ResolvedJournal, []LoadError) {
 		}}
 	}
 
-	return l.loadWithContent(path, string(content), make(map[string]bool))
+	return l.loadWithContent(path, string(content), newTraversal())
 }
 
 func (l *Loader) LoadFromContent(path, content string) (*ResolvedJournal, []LoadError) {
@@ -111,10 +111,22 @@ func (l *Loader) LoadFromContent(path, content string) (*ResolvedJournal, []Load
 			Message: fmt.Sprintf("file too large: %d bytes (max %d)", len(content), limits.MaxFileSizeBytes),
 		}}
 	}
-	return l.loadWithContent(path, content, make(map[string]bool))
+	return l.loadWithContent(path, content, newTraversal())
 }
 
-func (l *Loader) loadWithContent(path, content string, visited map[string]bool) (*ResolvedJournal, []LoadError) {
+// traversal is the state of one load: the files currently being included
+// (a directive that re-enters one of them closes a cycle) and the files
+// already loaded (a file reached again along another path is not loaded twice).
+type traversal struct {
+	stack  map[string]bool
+	loaded map[string]bool
+}
+
+func newTraversal() *traversal {
+	return &traversal{stack: make(map[string]bool), loaded: make(map[string]bool)}
+}
+
+func (l *Loader) loadWithContent(path, content string, visited *traversal) (*ResolvedJournal, []LoadError) {
 	return l.resolveIncludes(path, parseFile(path, content), visited)
 }
 
@@ -137,22 +149,14 @@ func parseFile(path, content string) parsedFile {
 	return parsedFile{journal: journal, parseErrors: errors}
 }
 
-func (l *Loader) resolveIncludes(path string, file parsedFile, visited map[string]bool) (*ResolvedJournal, []LoadError) {
-	limits := l.getLimits()
-
-	if len(visited) >= limits.MaxIncludeDepth {
-		return nil, []LoadError{{
-			Kind:    ErrorCycleDetected,
-			Path:    path,
-			Message: fmt.Sprintf("include depth limit exceeded (%d)", limits.MaxIncludeDepth),
-		}}
-	}
-
+func (l *Loader) resolveIncludes(path string, file parsedFile, visited *traversal) (*ResolvedJournal, []LoadError) {
 	journal := file.journal
 	errors := append([]LoadError(nil), file.parseErrors...)
 
 	result := NewResolvedJournal(journal)
-	visited[path] = true
+	visited.loaded[path] = true
+	visited.stack[path] = true
+	defer delete(visited.stack, path)
 
 	for _, inc := range journal.Includes {
 		if IsGlobPattern(inc.Path) {
@@ -195,17 +199,31 @@ func (l *Loader) resolveIncludes(path string, file parsedFile, visited map[strin
 func (l *Loader) loadSingleInclude(
 	basePath, includePath string,
 	incRange ast.Range,
-	visited map[string]bool,
+	visited *traversal,
 	result *ResolvedJournal,
 ) []LoadError {
 	var errors []LoadError
 	limits := l.getLimits()
 
-	if visited[includePath] {
+	if visited.stack[includePath] {
 		errors = append(errors, LoadError{
 			Kind:    ErrorCycleDetected,
 			Path:    includePath,
 			Message: fmt.Sprintf("cycle detected: %s includes %s", basePath, includePath),
+			Range:   incRange,
+		})
+		return errors
+	}
+
+	if visited.loaded[includePath] {
+		return errors
+	}
+
+	if len(visited.stack) >= limits.MaxIncludeDepth {
+		errors = append(errors, LoadError{
+			Kind:    ErrorCycleDetected,
+			Path:    includePath,
+			Message: fmt.Sprintf("include depth limit exceeded (%d)", limits.MaxIncludeDepth),
 			Range:   incRange,
 		})
 		return errors
